@@ -34,6 +34,7 @@ mod c14;
 mod conn;
 mod exec;
 mod handler;
+mod tracesub;
 mod transport;
 mod c15;
 mod c16;
@@ -61,6 +62,7 @@ fn main() {
     let mut out = PathBuf::from("out");
     let mut replay = None;
     let mut verbose = false;
+    let mut trace = true;
     let mut i = 1;
     while i < args.len() {
         let a = args[i].as_str();
@@ -95,6 +97,7 @@ fn main() {
                 replay = Some((w.to_string(), idx.parse().unwrap_or(0)));
             }
             "--verbose" => verbose = true,
+            "--no-trace" => trace = false,
             _ => {
                 eprintln!("unknown argument {a}");
                 std::process::exit(3);
@@ -108,6 +111,10 @@ fn main() {
     if replay.is_some() {
         verbose = true;
         threads = 1;
+    }
+    if trace {
+        // evaluate the crate's log statements on every workload (see tracesub.rs)
+        tracesub::install();
     }
     ev::install_panic_hook(verbose);
     if scale != Scale::Miri {
